@@ -35,7 +35,7 @@ if [ "$NF" != "0" ] || [ "$RC1" = "0" ] || [ "$RC0" != "0" ]; then echo "NOT CON
 # run checks against the change (the worktree has it applied; checks import nessai from NESSAI_REPO)
 DET=""
 for C in "$@"; do
-  cd /verif && NESSAI_REPO=$WT VERIF_EVIDENCE_DIR=$DEST/.ev timeout 1500 ./check $C --tier quick > $DEST/.check_$C.txt 2>&1; RC=$?
+  cd /verif && NESSAI_REPO=$WT VERIF_EVIDENCE_DIR=$DEST/.ev timeout 2400 ./check $C --tier quick > $DEST/.check_$C.txt 2>&1; RC=$?
   V=$(grep -c "^VIOLATION" $DEST/.check_$C.txt)
   echo "check $C exit=$RC violations=$V $(grep -m1 '^  key=' $DEST/.check_$C.txt)" | tee -a $LOG
   [ $RC = 1 ] && DET="$DET $C"
